@@ -31,6 +31,7 @@ def run(tier, replay=None):
     sub = withpar[rng.randrange(len(withpar))]
     if tier == "quick":
         plans = [("core_maths", 3, None, [2, 5, 8, 16]), ("core_maths", 4, None, [3, 7]), ("verif_c13", 3, sub, [3]),
+                 ("core_maths", 5, None, [2]),                                        # first complexity with several alternatives of one sum rewriting
                  ("base_e_maths", 4, None, [2, 3]),                                  # smallest shipped library in which check_results un-merges functions on several ranks
                  ("verif_small", 3, [["x", "a"], ["inv"], ["+", "*", "/"]], [13, 16])]  # more ranks than functions of a shape (12 per shape)
     else:
